@@ -460,7 +460,7 @@ type glueJob struct {
 	kind   string
 }
 
-func glueStream(r *Rng, st *Stats, n int, tier string) []string {
+func glueStream(r *Rng, st *Stats, n int, tier string) ([]string, []string) {
 	var jobs []glueJob
 	for _, g := range fixedGraphs() {
 		if g.shape == "known" {
@@ -478,6 +478,9 @@ func glueStream(r *Rng, st *Stats, n int, tier string) []string {
 	}
 	for i := 0; i < n/4+2; i++ {
 		jobs = append(jobs, assetJob(r))
+	}
+	for i := 0; i < 2; i++ {
+		jobs = append(jobs, interopJob(r))
 	}
 	results := runJobsConfirmed(jobs)
 	for i, outs := range results {
@@ -511,7 +514,136 @@ func glueStream(r *Rng, st *Stats, n int, tier string) []string {
 			st.Note("evalorder", c, len(j.g.mods) > 1)
 		}
 	}
-	return evalCases
+	// interop cases: what an import from a CommonJS file evaluates to, natively and in the bundle
+	var interopCases []string
+	for i, outs := range results {
+		if jobs[i].kind != "glue:interop" {
+			continue
+		}
+		for _, o := range outs {
+			if o.kind != "ok" || o.natLog == nil {
+				continue
+			}
+			interopCases = append(interopCases, interopCasesOf(o.natLog, o.bunLog)...)
+		}
+	}
+	return evalCases, interopCases
+}
+
+// ---- imports from CommonJS files: namespace-alias property accesses on __toESM(require_x(), isNodeMode) ----
+
+var reInterop = regexp.MustCompile(`^(I:(\d):(\d):(\d):(\d):(\d)#\d+)=(\d)$`)
+
+// interopJob: CommonJS targets with every combination of the __esModule marker (absent / assigned /
+// defined non-enumerable) and an own "default" key, imported by ESM-typed files (.mjs, and .js
+// under "type": "module") with import statements (default, namespace, named) and import(), and by
+// files that are not ESM-typed with import() - there only targets without the marker (with it:
+// recorded finding G).  Every probe line carries its own parameters:
+// I:<typed>:<dynamic>:<marker>:<has default key>:<name 0 default, 1 x, 2 y (absent)>#<n>=<class>
+func interopJob(r *Rng) glueJob {
+	files := map[string]string{"package.json": `{}`, "sub/package.json": `{"type":"module"}`}
+	const classify = "const $V = v => v === undefined ? 3 : typeof v === \"object\" ? 0 : v === \"D\" ? 1 : 2;\n"
+	type target struct {
+		path           string
+		marker, hasDef int
+	}
+	var targets []target
+	for marker := 0; marker < 3; marker++ {
+		for hasDef := 0; hasDef < 2; hasDef++ {
+			t := target{fmt.Sprintf("l%d%d.cjs", marker, hasDef), marker, hasDef}
+			var sb strings.Builder
+			switch marker {
+			case 1:
+				sb.WriteString("exports.__esModule = true;\n")
+			case 2:
+				sb.WriteString("Object.defineProperty(exports, \"__esModule\", { value: true });\n")
+			}
+			sb.WriteString("exports.x = \"X\";\n")
+			if hasDef == 1 {
+				sb.WriteString("exports.default = \"D\";\n")
+			}
+			files[t.path] = sb.String()
+			targets = append(targets, t)
+		}
+	}
+	n := 0
+	tag := func(typed, dyn int, t target, name int) string {
+		n++
+		m := 0
+		if t.marker != 0 {
+			m = 1
+		}
+		return fmt.Sprintf("I:%d:%d:%d:%d:%d#%d", typed, dyn, m, t.hasDef, name, n)
+	}
+	importer := func(path string, typed bool) {
+		var sb strings.Builder
+		rel := "./"
+		if strings.HasPrefix(path, "sub/") {
+			rel = "../"
+		}
+		ty := 0
+		if typed {
+			ty = 1
+		}
+		var body strings.Builder
+		body.WriteString(classify)
+		for i, t := range targets {
+			if r.Chance(25) {
+				continue
+			}
+			if typed {
+				switch r.Intn(3) {
+				case 0:
+					fmt.Fprintf(&sb, "import d%d from %q;\n", i, rel+t.path)
+					fmt.Fprintf(&body, "$L.push(%q + $V(d%d));\n", tag(1, 0, t, 0)+"=", i)
+				case 1:
+					fmt.Fprintf(&sb, "import * as n%d from %q;\n", i, rel+t.path)
+					fmt.Fprintf(&body, "$L.push(%q + $V(n%d.default));\n$L.push(%q + $V(n%d.x));\n$L.push(%q + $V(n%d.y));\n",
+						tag(1, 0, t, 0)+"=", i, tag(1, 0, t, 1)+"=", i, tag(1, 0, t, 2)+"=", i)
+				default:
+					fmt.Fprintf(&sb, "import d%d, { x as x%d } from %q;\n", i, i, rel+t.path)
+					fmt.Fprintf(&body, "$L.push(%q + $V(d%d));\n$L.push(%q + $V(x%d));\n", tag(1, 0, t, 0)+"=", i, tag(1, 0, t, 1)+"=", i)
+				}
+			}
+			if !typed && t.marker != 0 {
+				continue
+			}
+			if typed && r.Chance(30) {
+				continue
+			}
+			fmt.Fprintf(&body, "$Q = $Q.then(() => import(%q)).then(ns => { $L.push(%q + $V(ns.default)); $L.push(%q + $V(ns.x)); $L.push(%q + $V(ns.y)); });\n",
+				rel+t.path, tag(ty, 1, t, 0)+"=", tag(ty, 1, t, 1)+"=", tag(ty, 1, t, 2)+"=")
+		}
+		files[path] = sb.String() + body.String()
+	}
+	importer("t.mjs", true)
+	importer("sub/t.js", true)
+	importer("u.cjs", false)
+	importer("v.js", false)
+	files["e.mjs"] = "import \"./t.mjs\";\nimport \"./sub/t.js\";\nimport \"./u.cjs\";\nimport \"./v.js\";\n"
+	return glueJob{nil, files, "e.mjs", "e.mjs", true, pickCfgs(r, 3), map[string]interface{}{"shape": "interop"}, "glue:interop"}
+}
+
+func interopCasesOf(natLog, bunLog []string) []string {
+	nat := map[string]string{}
+	for _, l := range natLog {
+		if m := reInterop.FindStringSubmatch(l); m != nil {
+			nat[m[1]] = m[7]
+		}
+	}
+	var out []string
+	for _, l := range bunLog {
+		m := reInterop.FindStringSubmatch(l)
+		if m == nil {
+			continue
+		}
+		nv, ok := nat[m[1]]
+		if !ok {
+			nv = "9"
+		}
+		out = append(out, fmt.Sprintf("(%s, %s, %s, %s, %s, %s, %s)", CBool(m[2] == "1"), CBool(m[3] == "1"), CBool(m[4] == "1"), CBool(m[5] == "1"), m[6], nv, m[7]))
+	}
+	return out
 }
 
 var reStartEnd = regexp.MustCompile(`^(\d+):(start|end)$`)
